@@ -3,7 +3,7 @@
 # model's expectation are derived; shrinking edits the world, never the plan.
 from .models import Tree, m5, norm, norm_suffix, basename, render_plain
 
-NAME_POOL = ["10-a", "9-b", "100-c", "A", "a", "B", "_x", "~y", "0", "00", ".h"]
+NAME_POOL = ["10-a", "9-b", "100-c", "A", "a", "B", "_x", "~y", "0", "00", ".h", "sp ace", "\xe9t\xe9", "a.b", "-dash"]
 KEYS = ["x", "y", "z", "w"]
 SECS = ["A", "B", "Sec 1"]
 MAIN_STATES = ["absent", "regular", "empty", "devnull"]
@@ -207,6 +207,9 @@ def gen_layered_world(rng, i, two_layer=None, want_files=True, small=False, allo
                 continue
             cand = [n for n in pool if n not in used_here]
             names = rng.subset(cand, 1, maxd)
+            if rng.chance(0.04):
+                # a crowded directory: growth of the consulted list well past its initial size
+                names = names + ["%02d-n" % k for k in rng.sample(range(10, 60), rng.randint(6, 22))]
             for nm in names:
                 used_here.add(nm)
                 fid += 1
